@@ -220,6 +220,8 @@ def parse_test(p: P, toks) -> Any:
         p.refuse("unsupported [[ ]] test")
     if any(has_glob(w) for w in inner):
         p.refuse("glob in [ ] test")
+    if len(inner) == 3 and il[1] == "!=" and il[2] == "0" and word_text(inner[0]) == "$#":
+        return ("argsleft",)
     if len(inner) == 2 and il[0] in ("-f", "-e", "-d", "-z"):
         return ("un", il[0], inner[1], br)
     if len(inner) == 3 and il[1] in ("=", "==", "!="):
@@ -228,6 +230,8 @@ def parse_test(p: P, toks) -> Any:
 
 
 def test_text(t) -> str:
+    if t[0] == "argsleft":
+        return "[ $# != 0 ]"
     if t[0] == "prefix":
         return f"[[ {word_text(t[1])} == {word_text(t[3])} ]]"
     if t[0] == "un":
@@ -598,11 +602,16 @@ def cwords(ws) -> str:
 
 
 def ctest(t) -> str:
+    if t[0] == "argsleft":
+        return "TArgsLeft"
     if t[0] == "prefix":
         return f"TPrefix {cword(t[1])} {cstr(t[2])}"
     if t[0] == "un":
         return {"-f": "TFileF", "-e": "TFileE", "-d": "TFileD", "-z": "TStrZ"}[t[1]] + " " + cword(t[2])
     return ("TNe " if t[1] == "!=" else "TEq ") + cword(t[2]) + " " + cword(t[3])
+
+
+HEREDOCS: List[str] = []
 
 
 def ccmds(sts, ind: int) -> str:
@@ -640,7 +649,8 @@ def ccmd(st, ind: int) -> str:
     if k == "eval":
         return f"CEval {cstr(st[1])} {cstr(st[2])} ({ccmd(st[3], ind)})"
     if k == "heredoc":
-        return f"CHeredoc {cword(st[1])} {cstr(st[4])}"
+        HEREDOCS.append(st[4])
+        return f"CHeredoc {cword(st[1])} (hb {len(HEREDOCS) - 1})"
     if k == "run":
         return f"CRun {cwords(st[1])}"
     if k == "if":
@@ -668,12 +678,36 @@ def render(backend: str) -> str:
         raise Refusal(f"{what}: cannot read: {e}")
     ast = parse_script(text, what)
     self_test(text, ast, what)
+    loops = [i for i, st in enumerate(ast) if st[0] == "getopts"]
+    if len(loops) != 1:
+        raise Refusal(f"{what}: expected exactly one top-level getopts loop, found {len(loops)}")
+    k = loops[0]
+    g = ast[k]
+    HEREDOCS.clear()
+    pre_txt = ccmds(ast[:k], 2)
+    arms_probe = "".join(ccmds(body, 4) for _, body, _ in g[3])
+    if HEREDOCS:
+        raise Refusal(f"{what}: here-document before or inside the getopts loop")
+    arms = ""
+    for pat, body, _ in g[3]:
+        arms += f"\n  (ACons {cstr(pat)} ({ccmds(body, 4)})"
+    arms += "\n  ANil" + ")" * len(g[3])
     return ("From FV Require Import Base.Prelude Model.Shell.\n\n"
-            f"(* {SCRIPTS[backend]} *)\n"
-            f"Definition script : cmds := {ccmds(ast, 2)}.\n")
+            f"(* {SCRIPTS[backend]} : statements before the getopts loop, the loop, statements after it *)\n"
+            f"Definition script_pre : cmds := {pre_txt}.\n"
+            f"Definition script_os : string := {cstr(g[1])}.\n"
+            f"Definition script_var : string := {cstr(g[2])}.\n"
+            f"Definition script_arms : arms := {arms}.\n"
+            "(* here-document bodies are referred to by number: no command inspects them *)\n"
+            f"Definition script_rest_of (hb : nat -> string) : cmds := {ccmds(ast[k + 1:], 2)}.\n"
+            "Definition heredocs : list string := [" + ";\n  ".join(cstr(h) for h in HEREDOCS) + "].\n"
+            "Definition script_rest : cmds := script_rest_of (fun i => nth i heredocs \"\").\n"
+            "Definition script : cmds := capp script_pre (CCons (CGetopts script_os script_var script_arms) script_rest).\n")
 
 
-FALLBACK = "From FV Require Import Base.Prelude Model.Shell.\nDefinition script : cmds := CNil.\n"
+FALLBACK = ("From FV Require Import Base.Prelude Model.Shell.\nDefinition script_pre : cmds := CNil.\nDefinition script_os : string := \"\".\n"
+            "Definition script_var : string := \"\".\nDefinition script_arms : arms := ANil.\nDefinition script_rest : cmds := CNil.\n"
+            "Definition script : cmds := CNil.\n")
 
 
 @translator("Runner_atlas_r21.v", FALLBACK)
